@@ -101,7 +101,7 @@ pub fn run(report: &mut Report, replay: Option<&Value>) {
     cfg.option_percent = 45;
     let cfg_r = cfg.clone();
     let rebuild = |tp: &[u8]| build_item(tp, &cfg_r, &mut GenStats::default());
-    let hooks = Hooks { classify: &classify, classify_compile: &|_, _| None, compile_failure_is_violation: false, rebuild: Some(&rebuild) };
+    let hooks = Hooks { classify: &classify, classify_compile: &|_, _| None, compile_failure_is_violation: true, rebuild: Some(&rebuild) };
     for round in 0..rounds {
         let tapes = sample_tapes(report.seed, 0xC10 + round as u64 * 7919, n_programs, 3072);
         let items: Vec<Item> = tapes.iter().filter_map(|tp| build_item(tp, &cfg, &mut stats)).collect();
